@@ -106,7 +106,7 @@ func (g *c06gen) pickBlock(allowCommitted bool) *c06gBlock {
 			cand = append(cand, b)
 		}
 	}
-	if len(cand) == 0 || (allowCommitted && g.r.Intn(14) == 0) {
+	if len(cand) == 0 || (allowCommitted && g.r.Intn(6) == 0) {
 		if !allowCommitted {
 			return nil
 		}
@@ -136,8 +136,8 @@ func (g *c06gen) pickTxn() (string, bool) {
 		if g.r.Intn(2) == 0 {
 			t = g.txns[len(g.txns)-1]
 		}
-		// rarely a transaction whose block cache has already been committed (life-cycle misuse, open finding)
-		if try > 4 || !g.txnBlockCommitted(t) || g.r.Intn(12) == 0 {
+		// less often a transaction whose block cache has already been committed
+		if try > 4 || !g.txnBlockCommitted(t) || g.r.Intn(4) == 0 {
 			return t, true
 		}
 	}
